@@ -22,7 +22,7 @@ func H_C20_forward() {
 	n := c08Arity(op)
 	xs := make([]T, n)
 	for i := range xs {
-		xs[i], _ = operandInState(vrt.Nm("x", i), []int{2, 2}, vrt.Concretize(vrt.Int(vrt.Nm("state", i), 0, 1)))
+		xs[i], _ = operandInState(vrt.Nm("x", i), opShape(), vrt.Concretize(vrt.Int(vrt.Nm("state", i), 0, 1)))
 	}
 	// "goroutine 1"
 	if n == 1 {
